@@ -333,6 +333,11 @@ impl tower::Service<Req> for SimInner {
                 *w.in_flight_key.entry((svc, req.key)).or_insert(0) -= 1;
             });
             world::log(Ev::InnerEnd { svc, serial, how: EndHow::Panicked });
+            // capacity mode: the slot is free again
+            let ws = world::with(|w| std::mem::take(&mut w.ready_waiters));
+            for w in ws {
+                w.wake();
+            }
             std::panic::panic_any(SimPanic);
         }
         let mut guard = Guard {
